@@ -490,7 +490,7 @@ def _cat_jobs(oracle, tier, rows=CAT_ROWS, pools=(0, 2)):
                 jobs.append(("pipex_cat", ["--row", r, "--oracle", oracle, "--pool", pool, "--prov", prov, "--depth", dq if q else dt, "--deadline", 75 if q else 840] + extra))
     return jobs
 
-_CAT_BOUNDS = {"quick": "61 catalogue rows (the first 32: 29 pipes, the queue pair also without an event loop for the source, 2 chains; then 29 further rows with the generic oracles only, depth 4, input-subpipe rows depth 5): every sequence of up to 5 operations (4 for buffer and the 3-pipe chain) with pool depth 0 and managers provided by the probes, and up to 4 (3) operations with pool depth 2 and managers provided by the sinks (shared managers), over the row's alphabet "
+_CAT_BOUNDS = {"quick": "78 catalogue rows (the first 32: 29 pipes, the queue pair also without an event loop for the source, 2 chains; then 29 further rows with the generic oracles only, depth 4, input-subpipe rows depth 5): every sequence of up to 5 operations (4 for buffer and the 3-pipe chain) with pool depth 0 and managers provided by the probes, and up to 4 (3) operations with pool depth 2 and managers provided by the sinks (shared managers), over the row's alphabet "
                         "(rows added later: crop / trickplay / setrap / multicat_probe / discard_blocking / even / stream_switcher with their option setters and getters, blit, videocont, audiocont, grid, sync (reference input + input subpipes; "
                         "each also from a start state in which a subpipe is allocated, the output connected and a definition given, over a sub-alphabet - see CAT_EXTRA), audio_split, audio_merge, rtp_h264, rtp_mpeg4) "
                         "(set_flow_def F1/F2/foreign, 5 input shapes incl. empty, 3+2-segment and shared-segment buffers, set_output S0/S1(rejecting)/NULL, sink answer toggle, flush, "
